@@ -228,7 +228,7 @@ mod vharness {
 
     // TOML bare keys: is_safe_toml_plain(s) <=> s in [A-Za-z0-9_-]+ ; escape_key_toml returns the
     // key itself iff bare, else the quoted escaped form.
-    //@harness props=C05 strength=bounded bound="keys of 0..3 arbitrary bytes that form valid UTF-8" clause="TOML bare-key test exact; quoted otherwise" timeout=600
+    //@harness props=C05 strength=bounded bound="keys of 0..3 arbitrary ASCII bytes" clause="TOML bare-key test exact on ASCII keys; quoted otherwise" timeout=600
     #[kani::proof]
     #[kani::unwind(6)]
     fn toml_bare_key_exact() {
@@ -247,6 +247,22 @@ mod vharness {
         kani::assume(ascii);
         let s = unsafe { core::str::from_utf8_unchecked(&w[..n]) };
         assert!(is_safe_toml_plain(s) == bare, "C05:escape:toml-bare-key-iff");
+    }
+
+    //@harness props=C05 strength=bounded bound="keys consisting of one arbitrary well-formed 2-byte or 3-byte UTF-8 character, alone or after the letter 'a'" clause="a TOML key containing any non-ASCII character is never bare (TOML 1.0 bare keys are ASCII letters, digits, _ and - only): is_safe_toml_plain is false for it" timeout=900 replay=toml_key
+    #[kani::proof]
+    #[kani::unwind(40)]
+    fn toml_key_with_non_ascii_char_is_quoted() {
+        let b: [u8; 3] = kani::any();
+        let three: bool = kani::any();
+        let c = |x: u8| x >= 0x80 && x <= 0xBF;
+        if three { kani::assume((b[0] == 0xE0 && b[1] >= 0xA0 && b[1] <= 0xBF && c(b[2])) || (((b[0] >= 0xE1 && b[0] <= 0xEC) || b[0] == 0xEE || b[0] == 0xEF) && c(b[1]) && c(b[2])) || (b[0] == 0xED && b[1] >= 0x80 && b[1] <= 0x9F && c(b[2]))); }
+        else { kani::assume(b[0] >= 0xC2 && b[0] <= 0xDF && c(b[1])); }
+        let n = if three { 3 } else { 2 };
+        let with_prefix: bool = kani::any();
+        let buf = [b'a', b[0], b[1], b[2]];
+        let s = unsafe { core::str::from_utf8_unchecked(if with_prefix { &buf[..1 + n] } else { &buf[1..1 + n] }) };
+        assert!(!is_safe_toml_plain(s), "C05:escape:toml-key-with-a-non-ascii-character-is-not-bare");
     }
 
     //@harness props=C05,C20 strength=proof expect=fail clause="canary"
